@@ -95,7 +95,7 @@ PROPS = {
                               'libc::input_event as the layout oracle (size 24, offsets 16/18/20) on x86-64, native endianness',
                               'the native probe uses a real pipe: what the kernel delivers on a pipe is what was written'],
                 assumptions=['no deductive verifier in this sandbox reaches send (closure capturing &mut, not a retain) or next (nix read, FromPrimitive derive): no Verus claim is made; Kani is the bounded model checker of the same tool family',
-                             'batches of arbitrary length are covered only by fixed lengths (0, 1, 2) in Kani and by random batches natively: bounded, never counted as proved; the one-record layout is complete over all key codes']),
+                             'batches of arbitrary length are covered only by fixed lengths (0, 1, 2) in Kani and natively by one batch of every length 0..=256 (and 512, 1024, 2000) plus random batches of up to 39 events: bounded, never counted as proved; the one-record layout is complete over all key codes']),
     'C04': dict(units=['mapper'], level='proof', trusted_base=TB_MAPPER + [AS_ANYMOD], assumptions=AS_MAPPER + [
                     'claimed, as the property is quantified, for layouts without absorbing lists (Mapper::step carries the contract for every state in which nothing is absorbed)',
                     '"physically held" is read through the history fact that every key the mapper considers pressed is physically held; "the output of a held modifier-remapping" is read as: an output key of a layout mapping whose output does not end in a non-modifier key and whose trigger keys are all physically held',
